@@ -315,6 +315,27 @@ def run(ctx):
     ctx.ob("R16.6", "array element types", not bad6, site=A.where(ifc), detail={"incomparable_pairs_evaluated": len(sg), "mismatches": bad6[:6]},
            what="the array case orders comparable element types differently against a third type: %s - three arrays of these types compare intransitively" % bad6[:2])
 
+    # ---- R16.7
+    ctx.rule("R16.7", "ITR-IN-PLACE: the range-aware iterator copies into the caller's one-slot buffer only values it computes (an element of an arithmetic range); a stored list slot is handed out in place - a repeated value can be an array, of which a slot copy keeps only the header")
+    ui = ctx.ast("arg-val-itr.c")
+    fget = ui.function("rtosc_arg_val_itr_get")
+    bufp = ui.params(fget)[1]["id"]
+    copies = []
+    for x in A.walk(ui.body(fget)):
+        if x.get("kind") == "BinaryOperator" and x.get("opcode") == "=":
+            l = A.strip_casts(A.kids(x)[0])
+            if l.get("kind") == "UnaryOperator" and l.get("opcode") == "*" and A.ref_id(A.kids(l)[0]) == bufp:
+                r = A.strip_casts(A.kids(x)[1])
+                if r.get("kind") in ("ArraySubscriptExpr", "UnaryOperator") or (r.get("kind") == "MemberExpr"):
+                    copies.append(x)
+        if x.get("kind") == "CallExpr" and A.callee_name(x) in ("memcpy", "memmove") and A.ref_id(A.kids(x)[1]) == bufp:
+            copies.append(x)
+    rets = [r_ for r_ in A.walk(ui.body(fget)) if r_.get("kind") == "ReturnStmt"]
+    ctx.require(len(rets) >= 1, "R16.7: rtosc_arg_val_itr_get has no return")
+    ctx.ob("R16.7", "rtosc_arg_val_itr_get", not copies, site=A.where(copies[0]) if copies else A.where(fget), detail={"slot_copies_into_the_buffer": [A.src(c_)[:80] for c_ in copies]},
+           key="R16.7:rtosc_arg_val_itr_get",
+           what="rtosc_arg_val_itr_get copies a stored slot into the caller's one-slot buffer (`%s`): of a repeated array only the header arrives, the comparison then reads the elements behind the caller's variable" % (A.src(copies[0])[:80] if copies else ""))
+
     # ---- R16.3
     bad = []
     pairs = [("i", 1, "f", 1.0), ("s", "a", "S", "a"), ("T", 1, "F", 0), ("h", 1, "i", 1), ("b", b"", "s", "")]
